@@ -119,3 +119,108 @@ Theorem C03_namespace_default_partial :
 Proof. exact default_ns_spec_partial. Qed.
 Print Assumptions C03_namespace_default_partial.
 
+From MC Require Import Model.Decorator Model.DecoratorPreds Proofs.DecoratorLegs.
+
+(* ---- C03 on the decorator: what the hook is shown as attachments (Model/Decorator.v get_children_d,
+   hook_request_d; pkg/controller/decorator/controller.go getChildren, hooks.go callHook).
+   expected_attachments is the constant DecoratorPreds.C03d_round / C16_attachments_marker compare the
+   implementation's hook requests with ---- *)
+Theorem C03d_attachments_expected :
+  forall (c : dcfg) (k : dcache) (sent : json),
+    attachments_distinct c = true -> dcache_gvk_ok c k = true ->
+    convert (get_ns sent) (get_children_d c k sent) = expected_attachments c k sent.
+Proof. exact (@DecoratorLegs.C03d_attachments_expected). Qed.
+Print Assumptions C03d_attachments_expected.
+
+Theorem C03d_hook_sees_expected :
+  forall (c : dcfg) (k : dcache),
+    attachments_distinct c = true -> dcache_gvk_ok c k = true ->
+    all_calls (C03d_hook_ok c k) (sync_d c k).
+Proof. exact (@DecoratorLegs.C03d_hook_sees_expected). Qed.
+Print Assumptions C03d_hook_sees_expected.
+
+(* one group per declared attachment resource, in the declared order, present even when empty *)
+Theorem C03d_groups :
+  forall (c : dcfg) (k : dcache) (sent : json),
+    attachments_distinct c = true ->
+    expected_attachments c k sent =
+    JObj (map (fun kc => (att_text kc, JObj (shown_group c k sent kc))) (dc_attachments c)).
+Proof. exact (@DecoratorLegs.C03d_groups). Qed.
+Print Assumptions C03d_groups.
+
+Theorem C03d_group_lookup :
+  forall (c : dcfg) (k : dcache) (sent : json) (key : string) (j : json),
+    attachments_distinct c = true ->
+    (alookup key (obj_map (expected_attachments c k sent)) = Some j <->
+     exists kc, In kc (dc_attachments c) /\ key = att_text kc /\ j = JObj (shown_group c k sent kc)).
+Proof. exact (@DecoratorLegs.C03d_group_lookup). Qed.
+Print Assumptions C03d_group_lookup.
+
+(* membership: exactly the cached objects of the kind that the target controls, that carry this
+   decorator's marker and that are visible from the target's namespace, each under its relative name *)
+Theorem C03d_membership :
+  forall (c : dcfg) (k : dcache) (sent : json) (kc : child_cfg) (key : string) (o : json),
+    nodup_str (map qualified_name (cached_d k (ch_res kc))) = true ->
+    (In (key, o) (shown_group c k sent kc) <->
+     In o (cached_d k (ch_res kc)) /\ controlled_by o (get_uid sent) = true /\ has_marker c o = true /\
+     visible_d sent o = true /\ key = relative_name (get_ns sent) o).
+Proof. exact (@DecoratorLegs.C03d_membership). Qed.
+Print Assumptions C03d_membership.
+
+Theorem C03d_membership_sound :
+  forall (c : dcfg) (k : dcache) (sent : json) (kc : child_cfg) (key : string) (o : json),
+    In (key, o) (shown_group c k sent kc) ->
+    In o (cached_d k (ch_res kc)) /\ controlled_by o (get_uid sent) = true /\ has_marker c o = true /\
+    visible_d sent o = true /\ key = relative_name (get_ns sent) o.
+Proof. exact (@DecoratorLegs.C03d_membership_sound). Qed.
+Print Assumptions C03d_membership_sound.
+
+Theorem C03d_key :
+  forall (sent o : json),
+    (get_ns sent <> "" -> relative_name (get_ns sent) o = get_name o) /\
+    (get_ns sent = "" -> get_ns o <> "" -> relative_name (get_ns sent) o = (get_ns o ++ "/" ++ get_name o)%string) /\
+    (get_ns sent = "" -> get_ns o = "" -> relative_name (get_ns sent) o = get_name o).
+Proof. exact (@DecoratorLegs.C03d_key). Qed.
+Print Assumptions C03d_key.
+
+Example C03d_hypotheses_met :
+  attachments_distinct (LegsEx.cfg true) = true /\
+  dcache_gvk_ok (LegsEx.cfg true) (LegsEx.cache LegsEx.alive LegsEx.children) = true /\
+  dcache_names_distinct (LegsEx.cfg true) (LegsEx.cache LegsEx.alive LegsEx.children) = true.
+Proof. vm_compute. repeat split. Qed.
+
+Example C03d_shown_example :
+  expected_attachments (LegsEx.cfg true) (LegsEx.cache LegsEx.alive LegsEx.children) LegsEx.alive =
+    JObj [("ConfigMap.v1", JObj [("a", LegsEx.owned)])] /\
+  expected_attachments (LegsEx.cfg true) (LegsEx.cache LegsEx.alive [LegsEx.unmarked; LegsEx.foreign]) LegsEx.alive =
+    JObj [("ConfigMap.v1", JObj [])].
+Proof. vm_compute. split; reflexivity. Qed.
+
+(* the hypotheses are needed: an informer holding an object of another kind, two declared resources of
+   one kind, two cached objects of one namespace/name *)
+Example C03d_attachments_expected_refuted_gvk :
+  let odd := LegsEx.cmap "Secret" "a" "ns1" "uid-t1" "deco" in
+  let k := LegsEx.cache LegsEx.alive [odd] in
+  attachments_distinct (LegsEx.cfg true) = true /\ dcache_gvk_ok (LegsEx.cfg true) k = false /\
+  convert (get_ns LegsEx.alive) (get_children_d (LegsEx.cfg true) k LegsEx.alive) =
+    JObj [("ConfigMap.v1", JObj []); ("Secret.v1", JObj [("a", odd)])] /\
+  expected_attachments (LegsEx.cfg true) k LegsEx.alive = JObj [("ConfigMap.v1", JObj [("a", odd)])].
+Proof. exact (@DecoratorLegs.LegsEx.C03d_attachments_expected_refuted_gvk). Qed.
+
+Example C03d_attachments_expected_refuted_dup :
+  let cm2 := mkChild "v1" "configmaps2" "ConfigMap" true "" in
+  let c := mkDCfg "deco" [LegsEx.rule] [LegsEx.cm; cm2] true true [LegsEx.cm; cm2] in
+  let k := mkDCache "v1:Pod:ns1:t1" [("pods.v1", [LegsEx.alive])] [("configmaps.v1", [LegsEx.owned]); ("configmaps2.v1", [])] in
+  attachments_distinct c = false /\ dcache_gvk_ok c k = true /\
+  convert (get_ns LegsEx.alive) (get_children_d c k LegsEx.alive) = JObj [("ConfigMap.v1", JObj [("a", LegsEx.owned)])] /\
+  expected_attachments c k LegsEx.alive = JObj [("ConfigMap.v1", JObj [])].
+Proof. exact (@DecoratorLegs.LegsEx.C03d_attachments_expected_refuted_dup). Qed.
+
+Example C03d_membership_refuted :
+  let twin := LegsEx.cmap "ConfigMap" "a" "ns1" "uid-t1" "deco" in
+  let first := JObj (obj_map twin ++ [("data", JObj [("v", JStr "1")])])%list in
+  let k := LegsEx.cache LegsEx.alive [first; twin] in
+  dcache_names_distinct (LegsEx.cfg true) k = false /\
+  is_attachment (LegsEx.cfg true) LegsEx.alive first = true /\ In first (cached_d k (ch_res LegsEx.cm)) /\
+  shown_group (LegsEx.cfg true) k LegsEx.alive LegsEx.cm = [("a", twin)].
+Proof. exact (@DecoratorLegs.LegsEx.C03d_membership_refuted). Qed.
